@@ -1366,10 +1366,11 @@ func (r *Reader) searchStreams(ctx context.Context, result *resultData, subQuery
 						vdvp.queryParts.Set(uint(qpIdx))
 						continue values
 					}
+					// the mask is not shared: beyond 64 alternatives it has a tail that Set above would change for every copy
 					vdv = append(vdv, variableDataValue{
 						name:       k,
 						value:      v,
-						queryParts: qp,
+						queryParts: qp.Copy(),
 					})
 				}
 			}
